@@ -49,6 +49,20 @@ META = {
         note="Trusted: SimFS/SimDist stubs; num_workers=0; rows are mapped to utterances by content when ids are suppressed; the per-rank sampler order is taken from the sampler's public API (its correctness is C13); reference transforms in props/corpus.py.",
         technique="deterministic simulation: simulated ranks and file system, seeded epoch/restart/jump histories, per-epoch invariants + reproducibility history oracle",
     ),
+    "C12": dict(
+        category="exploration",
+        text="Seeded operation-and-corruption histories on one data directory in the simulated file system (CORRUPT with 20 stored-data fault kinds, REPAIR, REMOVE, STRAY files, VALIDATE, VALIDATE(fix=k), INFO none/strict/fix through the command, READ with sos/eos and write_hyp round trip), with directory listings permuted by the seed, judged after every step against an in-memory reference model: strict validation raises iff the documented conditions fail; fix=k succeeds iff only documented repairs are needed, writes exactly those repairs, is sticky and idempotent, and on failure leaves each file old or documented-repaired; the info report equals the recount; sos/eos surround every transcript including empty ones and write_hyp strips them.",
+        design="DESIGN.md section 4 (C12)",
+        note="Trusted: the reference model in props/c12.py (judge / recount, transcribed from the validate_spect_data_set and command docstrings); SimFS; no CUDA tensors; int8/int16 not injected; rcount of classes with empty known segments not judged (documentation ambiguous).",
+        technique="deterministic simulation: stored-data fault injection and operation histories on a simulated directory against an executable reference model",
+    ),
+    "C18": dict(
+        category="exploration",
+        text="First clause only. Accumulation histories: tensors sharing a feature dimension are cut recursively along tape-chosen axes and delivered to one MeanVarianceNormalization accumulator in tape-chosen order (optionally with an interim store), or stored as files and fed through compute-mvn-stats-for-torch-feat-data-dir under a permuted directory listing with --id2gid groups; mean and (biased / Bessel) std must equal the float64 pooled statistics for every partition and order, normalising the pooled data must give zero mean and unit variance, and without stored statistics the input's own are used. Deltas are judged only on the data-set transform path (inside C14).",
+        design="DESIGN.md section 4 (C18)",
+        note="NOT decided: feat_deltas for general (dim, time_dim, concatenate, pad_mode) and time_distributed_return: pure functions with no history, schedule or fault in them. Trusted: numpy float64 two-pass statistics; dtype-aware tolerances.",
+        technique="deterministic simulation: tape-driven partition/order histories of one accumulator, and the directory command on a simulated FS with permuted listings, against pooled float64 statistics",
+    ),
 }
 
 
